@@ -7,6 +7,7 @@
 package c03
 
 import (
+	"strings"
 	"testing"
 
 	"verif/pager"
@@ -183,6 +184,19 @@ func TestCheck(t *testing.T) {
 		}
 	}
 
+	// Part B: a checkpoint that overtakes the capture of a commit (see ckpt_inside_commit_test.go).
+	var partB []any
+	for _, r := range ckptInsideCommit(t) {
+		if strings.HasPrefix(r.Obs, "harness-error") {
+			run.HarnessError("checkpoint inside commit, %s: %s", r.Name, r.Obs)
+		}
+		for _, v := range r.V {
+			kv := strings.SplitN(v, "|", 2)
+			run.Violation(kv[0], kv[1], map[string]any{"part": "B", "case": r.Name})
+		}
+		partB = append(partB, map[string]any{"case": r.Name, "outcome": r.Obs})
+	}
+
 	var st prog.Stats
 	prog.RunAll(run, "C03", cases, &st)
 
@@ -196,6 +210,7 @@ func TestCheck(t *testing.T) {
 		"distinct_outcome_classes":      st.Classes.N(),
 		"outcome_classes":               st.Classes.Top(30),
 		"configs":                       cfgs,
+		"checkpoint_inside_commit":      partB,
 		"exhaustive":                    true,
 		"samples":                       st.Samples,
 		"rule":                          "all WAL programs of the stated depth over the alphabet {write transactions of 11-16 frame shapes incl. release of the write lock by closing the -shm descriptor and torn trailing frames, 5 SQLite checkpoint shapes, LiteFS recovery} from each (page size, start size); each program's every intermediate state is checked; transitions = individual file operations issued through the FUSE handlers",
